@@ -178,6 +178,16 @@ func isNilErrReturn(in ssa.Instruction) bool {
 	return isC && c.Value == nil
 }
 
+// normalExit: the success exits of fn: returns with a nil error when fn's last result is an error,
+// every return otherwise.
+func normalExit(fn *ssa.Function) func(ssa.Instruction) bool {
+	res := fn.Signature.Results()
+	if res.Len() > 0 && types.Identical(res.At(res.Len()-1).Type(), types.Universe.Lookup("error").Type()) {
+		return isNilErrReturn
+	}
+	return isReturn
+}
+
 func runC20(p *Prog, r *Report) {
 	r.MinInstances["C20.R1"] = 16
 	r.MinInstances["C20.R2"] = 8
@@ -214,48 +224,51 @@ func c20Stop(p *Prog, r *Report, sfs []sideFile) {
 		return
 	}
 	r.Fn(FuncName(stop))
+	// the closing sequence of a file may sit in Stop or in a helper method Stop calls
 	for _, sf := range sfs {
-		var closeCall ssa.Instruction
-		Instrs(stop, func(in ssa.Instruction) {
-			if methodCallOn(in, sf.file, "Close") {
-				closeCall = in
-			}
-		})
+		closes := FindDeep(stop, 2, func(in ssa.Instruction) bool { return methodCallOn(in, sf.file, "Close") })
 		key := "STOP: " + sf.file
-		if closeCall == nil {
+		if len(closes) == 0 {
 			r.Bad("C20.R1", key+" is closed", p.Pos(stop.Pos()), "Stop never closes this file")
 			continue
 		}
-		// close only under a non-nil test of the handle
+		cd := closes[len(closes)-1]
+		closeCall := cd.In
+		host := closeCall.Parent()
+		if host != stop {
+			r.Fn(FuncName(host))
+		}
+		// close only under a non-nil test of the handle (in the function that closes, or around the call of the helper)
 		guarded := false
-		for _, c := range controllingIfs(closeCall.Block()) {
-			if bo, ok := c.If.Cond.(*ssa.BinOp); ok && loadsWS(bo.X, sf.file) {
-				if (bo.Op == token.NEQ && c.Branch == 0) || (bo.Op == token.EQL && c.Branch == 1) {
-					guarded = true
+		for _, at := range append([]ssa.Instruction{closeCall}, cd.Path...) {
+			for _, c := range controllingIfs(at.Block()) {
+				if bo, ok := c.If.Cond.(*ssa.BinOp); ok && loadsWS(bo.X, sf.file) {
+					if (bo.Op == token.NEQ && c.Branch == 0) || (bo.Op == token.EQL && c.Branch == 1) {
+						guarded = true
+					}
 				}
 			}
 		}
 		r.Check(guarded, "C20.R1", key+" is closed only when open", p.InstrPos(closeCall), "close under a non-nil test of the handle", "Close is not guarded by a non-nil test of the handle")
 		if sf.writer != "" {
-			var flush ssa.Instruction
-			Instrs(stop, func(in ssa.Instruction) {
-				if methodCallOn(in, sf.writer, "Flush") {
-					flush = in
-				}
-			})
-			r.Check(flush != nil && InstrDominates(flush, closeCall), "C20.R1", key+" is flushed before it is closed", p.InstrPos(closeCall), "Flush dominates Close", "the buffered writer is not flushed before the file is closed: the tail of the log is lost")
+			flushes := FindDeep(stop, 2, func(in ssa.Instruction) bool { return methodCallOn(in, sf.writer, "Flush") })
+			okF := false
+			for _, f := range flushes {
+				okF = okF || DeepDominates(f, cd)
+			}
+			r.Check(okF, "C20.R1", key+" is flushed before it is closed", p.InstrPos(closeCall), "Flush dominates Close", "the buffered writer is not flushed before the file is closed: the tail of the log is lost")
 		}
 		// after Close, every path to the normal exit clears the handles
 		for _, h := range []string{sf.file, sf.writer} {
 			if h == "" {
 				continue
 			}
-			miss := ReachAvoiding(stop, closeCall, func(in ssa.Instruction) bool { return isNilStoreTo(in, h) }, isNilErrReturn)
+			miss := ReachAvoiding(host, closeCall, MustPass(func(in ssa.Instruction) bool { return isNilStoreTo(in, h) }, 2), normalExit(host))
 			r.Check(len(miss) == 0, "C20.R1", key+": handle "+h+" is cleared after closing", p.InstrPos(closeCall), "nil stored on every path to the normal exit", "after closing, a normal exit is reachable with the handle still set: the next run writes into a closed file")
 		}
 		// the file name is cleared on every path to the normal exit, whether or not the file was opened
 		if sf.name != "" {
-			miss := ReachAvoiding(stop, nil, func(in ssa.Instruction) bool { return isEmptyStringStoreTo(in, sf.name) }, isNilErrReturn)
+			miss := ReachAvoiding(stop, nil, MustPass(func(in ssa.Instruction) bool { return isEmptyStringStoreTo(in, sf.name) }, 2), isNilErrReturn)
 			pos := p.Pos(stop.Pos())
 			if len(miss) > 0 {
 				pos = p.InstrPos(miss[0])
@@ -264,22 +277,28 @@ func c20Stop(p *Prog, r *Report, sfs []sideFile) {
 		}
 	}
 	// STOP label before the state file is closed
-	var label, closeState ssa.Instruction
-	Instrs(stop, func(in ssa.Instruction) {
+	labels := FindDeep(stop, 2, func(in ssa.Instruction) bool {
 		if call, ok := in.(*ssa.Call); ok {
 			if c := call.Call.StaticCallee(); c != nil && c.Name() == "setExperimentStateLabel" {
 				for _, a := range call.Call.Args {
 					if cst, ok := a.(*ssa.Const); ok && cst.Value != nil && cst.Value.Kind() == constant.String && constant.StringVal(cst.Value) == "STOP" {
-						label = in
+						return true
 					}
 				}
 			}
 		}
-		if methodCallOn(in, "experimentStateFile", "Close") {
-			closeState = in
-		}
+		return false
 	})
-	r.Check(label != nil && closeState != nil && InstrDominates(label, closeState), "C20.R1", "STOP: the STOP label is written before the state file is closed", p.Pos(stop.Pos()), "label call dominates Close", "the state file can be closed without the final STOP line")
+	closeStates := FindDeep(stop, 2, func(in ssa.Instruction) bool { return methodCallOn(in, "experimentStateFile", "Close") })
+	okLabel := len(labels) > 0 && len(closeStates) > 0
+	for _, c := range closeStates {
+		dom := false
+		for _, l := range labels {
+			dom = dom || DeepDominates(l, c)
+		}
+		okLabel = okLabel && dom
+	}
+	r.Check(okLabel, "C20.R1", "STOP: the STOP label is written before the state file is closed", p.Pos(stop.Pos()), "label call dominates Close", "the state file can be closed without the final STOP line")
 	// Active cleared
 	miss := ReachAvoiding(stop, nil, func(in ssa.Instruction) bool {
 		st, ok := in.(*ssa.Store)
